@@ -28,6 +28,7 @@ type Knobs struct {
 	Second     bool              `json:"second_store,omitempty"`
 	Backends   map[string]string `json:"backends,omitempty"`
 	MutLogJSON bool              `json:"mutlog_json,omitempty"`
+	LockYield  bool              `json:"lock_yield,omitempty"` // DVID's own mutex acquisitions are scheduler yield points too
 	ShutDelay  int               `json:"shutdown_delay,omitempty"`
 }
 
@@ -191,6 +192,7 @@ func (w *World) Start() (*proto.Result, error) {
 		SecondStore:     w.Knobs.Second,
 		Backends:        w.Knobs.Backends,
 		MutLogJSON:      w.Knobs.MutLogJSON,
+		LockYield:       w.Knobs.LockYield || os.Getenv("VERIF_LOCKYIELD") == "1", // env: diagnosis only
 		Faults:          w.Faults,
 		Sched:           *w.nextSched(),
 		EventDetail:     w.Detail,
